@@ -7,7 +7,7 @@ COMMON_TB = [
 ]
 
 NOT_CLAIMED = {}
-FACT_PROPS = ["C03", "C04", "C06", "C07", "C10", "C11", "C12", "C13", "C15", "C16", "C17", "C19", "C20"]
+FACT_PROPS = ["C03", "C04", "C06", "C07", "C08", "C10", "C11", "C12", "C13", "C15", "C16", "C17", "C19", "C20"]
 
 PROPS = {
     "C17": dict(
@@ -81,15 +81,15 @@ PROPS = {
         engine="step-harness",
     ),
     "C08": dict(
-        lean_modules=["Swim.Lemmas.Merge", "Swim.Props.C08", 'Swim.Model.Cluster', 'Swim.Props.Cluster', 'Swim.Props.ClusterG', 'Swim.Props.C08Cluster', 'Swim.Props.Projection', 'Swim.Props.C03Cluster', 'Swim.Props.C04Cluster', 'Swim.Props.C08Final'],
+        lean_modules=["Swim.Lemmas.Merge", "Swim.Props.C08", 'Swim.Model.Cluster', 'Swim.Props.Cluster', 'Swim.Props.ClusterG', 'Swim.Props.C08Cluster', 'Swim.Props.Projection', 'Swim.Props.C03Cluster', 'Swim.Props.C04Cluster', 'Swim.Props.C08Final', "Swim.Model.Select", "Swim.Props.Select", "Swim.Props.GenTie.Select"],
         tests="^TestC08(Sim)?$",
         shards_quick=8,
-        rule='the C01 table (address same/other/disallowed/v4-mapped x prior state x aged x reclaim) judged by the hijack/reuse/departure predicate, plus random histories with Leave; non-trivial/distinct as C01',
+        rule='the C01 table (address same/other/disallowed/v4-mapped x prior state x aged x reclaim) judged by the hijack/reuse/departure predicate, plus random histories with Leave; non-trivial/distinct as C01 (sel) member selection: moveDeadNodes on lists of 0-40 records with ages at and around the window, kRandomNodes (k 0-6, list lengths around 3k, random exclusion sets) on a seeded generator - the draws of randomOffset and the permutation of shuffleNodes are observed first, then the generator is reseeded - both compared exactly (order and index) with Swim/Model/Select.lean; the members a real node addresses in gossip(), pushPull() and the indirect-ping round of probeNode() (records alive/suspect/dead/left, ages at the gossip-to-the-dead window) judged by the conclusions of the selection theorems under the model\'s exclusion rule',
         trusted_base=COMMON_TB + ["addresses/metadata abstracted to codes (distinct byte strings = distinct codes, checked by the harness pool)",
                                   "time abstracted to recent/long-ago classes; Go monotonic clock gives distinct change stamps",
                                   "net.IPNet.Contains as the allow-list predicate; go-msgpack for decoding queued broadcasts in the hook"],
         assumptions=["calls are serialised by nodeLock (no concurrency in the model)", "incarnations below 2^32-1 where stated", "cluster-level theorems: restart-free histories of the cluster model (network = monotone pool of claims delivered in any order/multiplicity, push/pull entry-wise, timing and target selection free); fewer than 2^32 steps"],
-        level_text="Proof (partial): conflict keeps the address and fires the callback, reclaim rules, departure recorded as left, no resurrection by alive claims no newer than the departure; cluster level (C08_cluster_left_is_left): in every history of the cluster model a member is recorded as left by anybody, or announced as departed on the network, only if it called Leave - C08_cluster_leave_final: once a member has left and a peer holds it as left at the member's own incarnation, every further cluster history without the reaper at that peer keeps it left (no alive claim in the system is newer than the departure, and all carry the member's own address); C08_cluster_leaver_stays_gone: the leaver never holds itself alive again - Lean theorems over the model tied by table + histories. The 'Leave returned nil so a peer was sent the departure' clause is covered by the simulator leg.",
+        level_text="Proof (partial): conflict keeps the address and fires the callback, reclaim rules, departure recorded as left, no resurrection by alive claims no newer than the departure; cluster level (C08_cluster_left_is_left): in every history of the cluster model a member is recorded as left by anybody, or announced as departed on the network, only if it called Leave - C08_cluster_leave_final: once a member has left and a peer holds it as left at the member's own incarnation, every further cluster history without the reaper at that peer keeps it left (no alive claim in the system is newer than the departure, and all carry the member's own address); C08_cluster_leaver_stays_gone: the leaver never holds itself alive again - Lean theorems over the model tied by table + histories. The 'Leave returned nil so a peer was sent the departure' clause is covered by the simulator leg. Member selection (Props/Select): moveDeadNodes is a permutation that splits exactly at the returned index and refines the filter of the probe-cursor model; kRandomNodes returns at most k distinct admissible members for every shuffle and every sequence of draws and is exhaustive on lists shorter than 3k; the exclusion rules of gossip/probeNode/pushPull are translated from the source on every run and proved equal to the model's (GenTie/Select), and the call sites of both helpers are a regenerated fact (reaping uses GossipToTheDeadTime).",
         level_note='Trusted: as C01. Known findings: second Leave after a timed-out Leave returns nil without sending; tombstone expiry allows resurrection (protocol design).',
         engine="step-harness",
     ),
@@ -220,13 +220,13 @@ PROPS = {
         engine="step-harness+codec-harness",
     ),
     "C19": dict(
-        lean_modules=["Swim.Model.Acks", "Swim.Props.C19", 'Swim.Model.Handlers', 'Swim.Props.C19Table', "Swim.Props.GenTie.Acks"],
+        lean_modules=["Swim.Model.Acks", "Swim.Props.C19", 'Swim.Model.Handlers', 'Swim.Props.C19Table', "Swim.Props.GenTie.Acks", "Swim.Model.Select", "Swim.Props.Select", "Swim.Props.GenTie.Select"],
         tests="^TestC19$",
         rule=("virtual-time scripts (testing/synctest) on a real node with a capturing transport: (probe) probeNode against a target with 0-4 relays "
               "of mixed protocol versions, IndirectChecks 0/1/3, initial health score 0-3, AwarenessMaxMultiplier 1/2/8, TCP fallback off / refused / "
               "answering / answering with a wrong sequence number, and up to 5 injected acks and nacks with own or foreign sequence numbers placed before "
               "the probe timeout, before the deadline, 1-3 ms either side of the deadline and long after; (relay) handleIndirectPing with the target's "
-              "ack in time / late / foreign / duplicated / absent, nack requested or not; (score) random delta sequences; non-trivial = 2+ injected events"),
+              "ack in time / late / foreign / duplicated / absent, nack requested or not; (score) random delta sequences; non-trivial = 2+ injected events (sel) member selection: moveDeadNodes on lists of 0-40 records with ages at and around the window, kRandomNodes (k 0-6, list lengths around 3k, random exclusion sets) on a seeded generator - the draws of randomOffset and the permutation of shuffleNodes are observed first, then the generator is reseeded - both compared exactly (order and index) with Swim/Model/Select.lean; the members a real node addresses in gossip(), pushPull() and the indirect-ping round of probeNode() (records alive/suspect/dead/left, ages at the gossip-to-the-dead window) judged by the conclusions of the selection theorems under the model's exclusion rule"),
         trusted_base=COMMON_TB + ["Go timers and channels under testing/synctest; events at exactly equal instants are avoided by the generator",
                                   "kRandomNodes' choice of relays is observed (expected nacks are counted from the indirect pings actually sent)"],
         assumptions=["processing time is zero in virtual time", "the window between map insertion and timer assignment in setAckHandler is below the model's granularity"],
@@ -235,7 +235,7 @@ PROPS = {
                     "(Lean); the score falls only when the ping left and its own acknowledgement arrived, whatever the transport did with the send "
                     "(probeWithSend); pending-acknowledgement table as a state machine (every record discarded by its deadline, foreign numbers are "
                     "no-ops); fact theorem: the sequence-number generator is one atomic step. Tied by exact virtual-time scripts on the real "
-                    "probeNode / handleIndirectPing / awareness code, refused-ping scripts, table scripts and a concurrent freshness run."),
+                    "probeNode / handleIndirectPing / awareness code, refused-ping scripts, table scripts and a concurrent freshness run. Member selection (Props/Select): moveDeadNodes is a permutation that splits exactly at the returned index and refines the filter of the probe-cursor model; kRandomNodes returns at most k distinct admissible members for every shuffle and every sequence of draws and is exhaustive on lists shorter than 3k; the exclusion rules of gossip/probeNode/pushPull are translated from the source on every run and proved equal to the model's (GenTie/Select), and the call sites of both helpers are a regenerated fact (reaping uses GossipToTheDeadTime)."),
         level_note="Partial: goroutine scheduling order at equal instants and real network timing are not modelled; observed only in virtual time.",
         engine="synctest-harness",
     ),
@@ -261,16 +261,16 @@ PROPS = {
         engine="codec-harness+fact-extractor",
     ),
     "C03": dict(
-        lean_modules=['Swim.Model.Probe', 'Swim.Model.Susp', 'Swim.Lemmas.Merge', 'Swim.Props.C06', 'Swim.Props.C03', 'Swim.Model.Cluster', 'Swim.Props.Cluster', 'Swim.Props.ClusterG', 'Swim.Props.Projection', 'Swim.Props.C03Cluster', 'Swim.Gen.Facts', 'Swim.Props.C06Facts'],
+        lean_modules=['Swim.Model.Probe', 'Swim.Model.Susp', 'Swim.Lemmas.Merge', 'Swim.Props.C06', 'Swim.Props.C03', 'Swim.Model.Cluster', 'Swim.Props.Cluster', 'Swim.Props.ClusterG', 'Swim.Props.Projection', 'Swim.Props.C03Cluster', 'Swim.Gen.Facts', 'Swim.Props.C06Facts', "Swim.Model.Select", "Swim.Props.Select", "Swim.Props.GenTie.Select"],
         tests="^TestC03$",
         timeout_quick=400,
         shards_quick=4,
-        rule="(cursor) the real probe() driven tick by tick on a node whose membership changes in between (inserts with random offsets, deaths, departures, aged records, revivals), each ping answered at once; the probed target, probeIndex and list order after every tick are compared with the model (the shuffle at a wrap is observed); (sim) clusters of 3-12 nodes (thorough: to 40) with crashes at random times incl. during joins and push/pulls, 0-20% loss among survivors, half of the runs with every suspect/dead message between survivors dropped (own evidence), occasional encryption+label; every survivor's drop time is compared with detectBound evaluated at the slowest pace the survivor showed; non-trivial = 5+ probe ticks / 2+ (survivor, crashed) pairs",
+        rule="(cursor) the real probe() driven tick by tick on a node whose membership changes in between (inserts with random offsets, deaths, departures, aged records, revivals), each ping answered at once; the probed target, probeIndex and list order after every tick are compared with the model (the shuffle at a wrap is observed); (sim) clusters of 3-12 nodes (thorough: to 40) with crashes at random times incl. during joins and push/pulls, 0-20% loss among survivors, half of the runs with every suspect/dead message between survivors dropped (own evidence), occasional encryption+label; every survivor's drop time is compared with detectBound evaluated at the slowest pace the survivor showed; non-trivial = 5+ probe ticks / 2+ (survivor, crashed) pairs (sel) member selection: moveDeadNodes on lists of 0-40 records with ages at and around the window, kRandomNodes (k 0-6, list lengths around 3k, random exclusion sets) on a seeded generator - the draws of randomOffset and the permutation of shuffleNodes are observed first, then the generator is reseeded - both compared exactly (order and index) with Swim/Model/Select.lean; the members a real node addresses in gossip(), pushPull() and the indirect-ping round of probeNode() (records alive/suspect/dead/left, ages at the gossip-to-the-dead window) judged by the conclusions of the selection theorems under the model's exclusion rule",
         trusted_base=COMMON_TB + ["testing/synctest virtual time: Go timers, channels and the scheduler inside a bubble; processing time is zero",
                                   "the simulator transport (non-blocking delivery, latency/loss/duplication/partition injection, net.Pipe streams)",
                                   "math/rand target selection is seeded but goroutine scheduling is not fully deterministic: the recorded outcome is the replay artifact"],
         assumptions=["goroutine scheduling delays and real network timing are not modelled (virtual time)", "cluster-level theorems: restart-free histories of the cluster model (network = monotone pool of claims delivered in any order/multiplicity, push/pull entry-wise, timing and target selection free); fewer than 2^32 steps"],
-        level_text='Proof (partial): probe target is never self or dead, each eligible peer is returned in list order before the wrap-around (pass_step), the local and listed records survive reaping, the stale-timer and timeout bounds of C06, monotonicity of the bound; C03_own_evidence / C03_cluster_own_evidence: in any cluster state, whatever the other nodes do, one unanswered probe of a member held alive followed by the expiry of the suspicion it started leaves the prober not listing the member, with a leave event and a dead broadcast signed by the prober (Lean). Tied by an exact cursor correspondence on the real probe(), by the step harness (suspicion and timer callback on the real code) and by crash simulations in virtual time against the bound, with the cluster-invariant monitor on the wire.',
+        level_text='Proof (partial): probe target is never self or dead, each eligible peer is returned in list order before the wrap-around (pass_step), the local and listed records survive reaping, the stale-timer and timeout bounds of C06, monotonicity of the bound; C03_own_evidence / C03_cluster_own_evidence: in any cluster state, whatever the other nodes do, one unanswered probe of a member held alive followed by the expiry of the suspicion it started leaves the prober not listing the member, with a leave event and a dead broadcast signed by the prober (Lean). Tied by an exact cursor correspondence on the real probe(), by the step harness (suspicion and timer callback on the real code) and by crash simulations in virtual time against the bound, with the cluster-invariant monitor on the wire. Member selection (Props/Select): moveDeadNodes is a permutation that splits exactly at the returned index and refines the filter of the probe-cursor model; kRandomNodes returns at most k distinct admissible members for every shuffle and every sequence of draws and is exhaustive on lists shorter than 3k; the exclusion rules of gossip/probeNode/pushPull are translated from the source on every run and proved equal to the model\'s (GenTie/Select), and the call sites of both helpers are a regenerated fact (reaping uses GossipToTheDeadTime).',
         level_note="Partial: the time per probe tick (awareness-scaled interval), the ticker and TCP-fallback timing are observed in virtual time, not derived; the bound is measured from the later of the crash and the survivor's last join/update event for the member.",
         engine="cluster-simulator",
     ),
